@@ -287,6 +287,13 @@ def gen_case(item, rng, tier):
     events.sort(key=lambda e: e['tick'])
     core['words'] = words
     core['force'] = force
+    if rng.random() < 0.2:
+        # a small window with an odd size in front of the data page, ending in the middle of the word most pointers aim at: an aligned word or
+        # doubleword access that starts in its last byte(s) runs off its end, with the data page mapped directly behind it
+        end = DATA + 0x400 + rng.choice([1, 1, 2, 3, 5, 0x41, -3])
+        ov = {'kind': 'ram', 'begin': end - rng.choice([0x21, 0x30, 0x7]), 'end': end}
+        G.set_data(ov, 0, bytes(rng.getrandbits(8) for _ in range(8)))
+        core['devices'].insert(0, ov)
     return {'scenario': 'corrupt', 'kind': item['k'], 'cores': [core], 'events': events,
             'max_ticks': nt + 4, 'stop_at_done': False}
 
